@@ -95,6 +95,10 @@ func (h *hdr) Send(msg []byte) error {
 // message along with an error of concrete type [*ContentTypeMismatchError].
 // The caller may choose to ignore this error by testing explicitly for this
 // type.
+// maxPrealloc is the largest message size for which Recv allocates (and
+// retains) a buffer before the data have been read.
+const maxPrealloc = 1 << 20
+
 func (h *hdr) Recv() ([]byte, error) {
 	var contentType, contentLength string
 	for {
@@ -134,6 +138,20 @@ func (h *hdr) Recv() ([]byte, error) {
 	size, err := strconv.Atoi(contentLength)
 	if err != nil || size < 0 {
 		return nil, errors.New("invalid content-length")
+	}
+
+	// Do not trust a large length enough to allocate for it up front: read
+	// incrementally, so memory grows only as data actually arrive, and a length
+	// the stream cannot satisfy is reported as an error.
+	if size > maxPrealloc {
+		var buf bytes.Buffer
+		if _, err := io.CopyN(&buf, h.rd, int64(size)); err != nil {
+			if err == io.EOF && buf.Len() != 0 {
+				err = io.ErrUnexpectedEOF
+			}
+			return nil, err
+		}
+		return buf.Bytes(), contentErr
 	}
 
 	// We need to use ReadFull here because the buffered reader may not have a
